@@ -74,10 +74,13 @@ def configs(tier):
         if c['graph'] == 'P3':
             out.append(dict(c, family='complex', tags=['complex'] + c['tags']))
     for fn in ODE_DIRECT:
-        for g in ['paw', 'irr5'] + (['P4', 'K4'] if tier == 'thorough' else []):
+        for g in ['paw', 'irr5', 'paw+K1'] + (['P4', 'K4'] if tier == 'thorough' else []):
+            if g == 'paw+K1' and fn not in ('SIS_heterogeneous_pairwise', 'SIR_heterogeneous_pairwise', 'SIS_heterogeneous_meanfield', 'SIR_heterogeneous_meanfield',
+                                            'SIS_compact_pairwise', 'SIR_compact_pairwise'):
+                continue
             if fn == 'SIS_super_compact_pairwise' and g == 'K4':
                 continue
-            if 'pair_based' in fn and g == 'irr5':
+            if 'pair_based' in fn and g in ('irr5', 'paw+K1'):
                 continue
             for ic in ('rho', 'sets'):
                 w = WRAPPER_OF[fn]
@@ -87,6 +90,9 @@ def configs(tier):
                     continue
                 for full in (False, True):
                     out.append(dict(family='ode', entry=fn, wrapper=w, graph=g, ic=ic, full=full, tags=['ode', fn, g, ic, 'full' if full else 'plain']))
+    for fn in ('SIS_pair_based', 'SIR_pair_based', 'SIS_individual_based', 'SIR_individual_based'):
+        for g in ('P3', 'paw'):
+            out.append(dict(family='ode-explicit', entry=fn, graph=g, tags=['ode-explicit', fn, g]))
     return out
 
 
@@ -315,6 +321,13 @@ def run_ode(h, cfg):
         if st == 'exc':
             h.fail('second-call-succeeds', {'exception': repr(r1)[:300], 'call': 'first direct call'})
             return None
+        # the integrator evaluates the right-hand side many times: do it once at the initial state and once at a flow state
+        # before looking at the arguments again (a right-hand side that writes through an alias would show up only then)
+        cc = flow.calls[ncalls]
+        for x_ in list(cc.out[1]):
+            eng.assume(lift(x_) > 0)
+        h.call(cc.dfunc, np.array(list(cc.X0), dtype=object), 0, *cc.args)
+        h.call(cc.dfunc, np.array(list(cc.out[1]), dtype=object), 0, *cc.args)
         after = [snap_array(x) for x in a] + [snap_array(v) for v in k.values()]
         bad = [i for i, (s1, s2) in enumerate(zip(before, after)) if not same_array(s1, s2)]
         if bad:
@@ -353,5 +366,136 @@ def run_ode(h, cfg):
         eng.div_guard = True
 
 
+def run_ode_explicit(h, cfg):
+    """node-level models called directly with caller-owned arrays (nodelist, Y0, X0, XY0, XX0)"""
+    eng = symx.ENG
+    import EoN.analytic as an
+    eng.div_guard = False
+    flow = odex.install(an, odex.FlowStub())
+    try:
+        G = graphs.make(cfg['graph'])
+        N = G.order()
+        nodelist = list(G.nodes())
+        tau = eng.real('tau', lo=0, lo_strict=True)
+        gamma = eng.real('gamma', lo=0, lo_strict=True)
+        fn = cfg['entry']
+        f = getattr(an, fn)
+        Y0 = np.array([1.0 if i == 1 else 0.0 for i in range(N)])
+        X0 = 1 - Y0
+        XY0 = X0[:, None] * Y0[None, :]
+        XX0 = X0[:, None] * X0[None, :]
+        kw = dict(nodelist=nodelist, Y0=Y0, tmin=0, tmax=2, tcount=3)
+        if 'pair' in fn:
+            kw.update(XY0=XY0, XX0=XX0)
+        if fn.startswith('SIR'):
+            kw['X0'] = X0
+        objs = {k: v for k, v in kw.items() if isinstance(v, (np.ndarray, list))}
+        g0 = snap_graph(G)
+        before = {k: snap_array(v) for k, v in objs.items()}
+        ret = h.call_must_succeed('no-exception', f, G, tau, gamma, **kw)
+        if ret is None:
+            return None
+        cc = flow.calls[0]
+        for x_ in list(cc.out[1]):
+            eng.assume(lift(x_) > 0)
+        h.call(cc.dfunc, np.array(list(cc.out[1]), dtype=object), 0, *cc.args)
+        after = {k: snap_array(v) for k, v in objs.items()}
+        bad = [k for k in before if not same_array(before[k], after[k])]
+        if bad or not same_graph(g0, snap_graph(G)):
+            h.fail('arrays-unchanged', {'changed_arguments': bad, 'before': str({k: before[k][2:4] for k in bad})[:200], 'after': str({k: after[k][2:4] for k in bad})[:200]})
+        else:
+            h.require('arrays-unchanged', True)
+        st, r2 = h.call(f, G, tau, gamma, **kw)
+        if st == 'exc':
+            h.fail('second-call-succeeds', {'exception': repr(r2)[:300]})
+            return None
+        h.require('second-call-succeeds', True)
+        c1, c2 = flow.calls[0], flow.calls[1]
+        same = len(c1.X0) == len(c2.X0) and all(same_val(x, y) for x, y in zip(c1.X0, c2.X0))
+        h.require('ode-repeat-identical', True) if same else h.fail('ode-repeat-identical', {'X0_first': show(list(c1.X0))[:12], 'X0_second': show(list(c2.X0))[:12]})
+        return None
+    finally:
+        eng.div_guard = True
+
+
 def run_path(h, cfg):
-    return {'sim': run_sim, 'simple': run_simple, 'complex': run_complex, 'ode': run_ode}[cfg['family']](h, cfg)
+    return {'sim': run_sim, 'simple': run_simple, 'complex': run_complex, 'ode': run_ode, 'ode-explicit': run_ode_explicit}[cfg['family']](h, cfg)
+
+
+def replay_concrete(cfg, kind, values, decisions):
+    """ODE families: numeric replay on the real code with the real integrator (argument snapshots before/after, second call)"""
+    if cfg['family'] not in ('ode', 'ode-explicit'):
+        return None
+    import EoN.analytic as an
+    odex.uninstall(an)
+    G = graphs.make(cfg['graph'])
+    N = G.order()
+    tau, gamma = 1.3, 0.7
+    fn = cfg['entry']
+    real = getattr(an, fn)
+    detail = {}
+    if cfg['family'] == 'ode-explicit':
+        nodelist = list(G.nodes())
+        Y0 = np.array([1.0 if i == 1 else 0.0 for i in range(N)])
+        X0 = 1 - Y0
+        kw = dict(nodelist=nodelist, Y0=Y0, tmin=0, tmax=2, tcount=3)
+        if 'pair' in fn:
+            kw.update(XY0=X0[:, None] * Y0[None, :], XX0=X0[:, None] * X0[None, :])
+        if fn.startswith('SIR'):
+            kw['X0'] = X0
+        objs = {k: v for k, v in kw.items() if isinstance(v, (np.ndarray, list))}
+        before = {k: snap_array(v) for k, v in objs.items()}
+        try:
+            real(G, tau, gamma, **kw)
+        except Exception as e:
+            return {'reproduced': kind.startswith('no-exception'), 'concrete_detail': {'exception': repr(e)[:200]}}
+        after = {k: snap_array(v) for k, v in objs.items()}
+        changed = [k for k in before if not same_array(before[k], after[k])]
+        second = None
+        try:
+            real(G, tau, gamma, **kw)
+        except Exception as e:
+            second = repr(e)[:200]
+        detail = {'changed_arguments': changed, 'second_call_exception': second}
+        rep = bool(changed) if kind == 'arrays-unchanged' else (second is not None if kind == 'second-call-succeeds' else bool(changed or second))
+        return {'reproduced': rep, 'concrete_detail': detail, 'how': 'real code, real integrator'}
+    captured = {}
+
+    def spy(*a, **k):
+        if 'before' not in captured:
+            captured['args'], captured['kw'] = a, k
+            captured['before'] = [snap_array(x) for x in a] + [snap_array(v) for v in k.values()]
+        out = real(*a, **k)
+        if 'after' not in captured:
+            captured['after'] = [snap_array(x) for x in a] + [snap_array(v) for v in k.values()]
+        return out
+    setattr(an, fn, spy)
+    try:
+        kw = dict(tmin=0, tmax=2, tcount=3)
+        w = getattr(an, cfg['wrapper'])
+        if cfg['ic'] == 'rho':
+            kw['rho'] = 0.3
+        elif 'pure_IC' not in cfg['wrapper']:
+            kw['initial_infecteds'] = [0]
+        if cfg['full'] and 'return_full_data' in inspect.signature(w).parameters:
+            kw['return_full_data'] = True
+        args = [G, tau, gamma] + ([[0]] if 'pure_IC' in cfg['wrapper'] else [])
+        try:
+            w(*args, **kw)
+        except Exception as e:
+            return {'reproduced': kind.startswith('no-exception'), 'concrete_detail': {'exception': repr(e)[:200]}}
+    finally:
+        setattr(an, fn, real)
+    if 'before' not in captured:
+        return {'reproduced': False, 'why': 'direct function not reached'}
+    names = list(inspect.signature(real).parameters)
+    changed = [names[i] if i < len(captured['args']) else list(captured['kw'])[i - len(captured['args'])]
+               for i, (s1, s2) in enumerate(zip(captured['before'], captured['after'])) if not same_array(s1, s2)]
+    second = None
+    try:
+        real(*captured['args'], **captured['kw'])
+    except Exception as e:
+        second = repr(e)[:200]
+    detail = {'changed_arguments': changed, 'second_call_exception': second}
+    rep = bool(changed) if kind == 'arrays-unchanged' else (second is not None if kind == 'second-call-succeeds' else bool(changed or second))
+    return {'reproduced': rep, 'concrete_detail': detail, 'how': 'real code, real integrator'}
